@@ -16,13 +16,6 @@ func init() { factFns["C20"] = factsC20 }
 
 const c20file = "type/conversion/conversion.go"
 
-func strList(xs []string) string {
-	it := make([]string, len(xs))
-	for i, x := range xs {
-		it[i] = "\"" + coqEscape(x) + "\"%string"
-	}
-	return "[" + strings.Join(it, "; ") + "]"
-}
 
 // kindSwitch renders the clauses of the first `switch <tag>` statement found at the top level of
 // the function body: (case kinds without the reflect. prefix, callees in the clause body).
